@@ -104,7 +104,7 @@ def run_property(pid, tier, seed, jobs):
         obligations += obs
         assumptions += ass
         extra.update(ex)
-    if pid in ("C07", "C04", "C01", "C13"):
+    if pid in ("C07", "C04", "C01", "C13", "C05"):
         try:
             import mirx_props
         except ImportError:
